@@ -618,6 +618,19 @@ def _below_helper_ok(m, name):
     return None
 
 
+def _as_pair(elt):
+    """[first, second] when elt builds a 2-tuple: a tuple display, or tuple(F(t) for t in (A, B)) with t substituted"""
+    if isinstance(elt, ast.Tuple) and len(elt.elts) == 2:
+        return list(elt.elts)
+    if isinstance(elt, ast.Call) and pyfront.call_name(elt) == "tuple" and len(elt.args) == 1 and isinstance(elt.args[0], (ast.GeneratorExp, ast.ListComp)):
+        g = elt.args[0]
+        if len(g.generators) == 1 and not g.generators[0].ifs and isinstance(g.generators[0].target, ast.Name) \
+                and isinstance(g.generators[0].iter, (ast.Tuple, ast.List)) and len(g.generators[0].iter.elts) == 2:
+            from .. import pysym
+            return [pysym.subst(g.elt, {g.generators[0].target.id: v}) for v in g.generators[0].iter.elts]
+    return None
+
+
 def r4_channel_pairs(repo=None):
     """Every requested channel is transferred, and every file once.  The channel values may be split on commas and stripped and
     each is mapped to one (source, destination) pair.  A pair may be dropped from the list only if nothing is lost by it: (a) it is
@@ -643,7 +656,21 @@ def r4_channel_pairs(repo=None):
         if isinstance(n, ast.Call):
             cn = pyfront.call_name(n) or ""
             if cn in ("set", "frozenset", "dict.fromkeys", "filter", "os.path.commonprefix", "collections.OrderedDict.fromkeys"):
-                susp.append(n)
+                # removing equal elements from the collection of the pairs themselves drops only a pair that repeats a kept one
+                a0 = n.args[0] if len(n.args) == 1 and not n.keywords else None
+                once = {}
+                for a_ in pyfront.walk_no_nested(f):
+                    if isinstance(a_, ast.Assign) and len(a_.targets) == 1 and isinstance(a_.targets[0], ast.Name):
+                        once.setdefault(a_.targets[0].id, []).append(a_.value)
+                hops = 0
+                while isinstance(a0, ast.Name) and len(once.get(a0.id, [])) == 1 and hops < 4:
+                    a0 = once[a0.id][0]
+                    hops += 1
+                if cn in ("dict.fromkeys", "collections.OrderedDict.fromkeys") and isinstance(a0, (ast.GeneratorExp, ast.ListComp)) \
+                        and len(a0.generators) == 1 and not a0.generators[0].ifs and _as_pair(a0.elt) is not None:
+                    allowed.append((n, "equal pairs are merged, first occurrence and order kept (`%s`)" % cn))
+                else:
+                    susp.append(n)
             if isinstance(n.func, ast.Attribute) and n.func.attr in ("remove", "pop", "discard", "clear") and not cn.startswith("os."):
                 susp.append(n)
     # conditional skips in loops that build the pair list
@@ -767,13 +794,13 @@ def r4_channel_pairs(repo=None):
                 continue
             susp.append(x)
     # helpers that look like prefix tests but are not component-wise are suspicious where they are used
-    pairs = [n for n in ast.walk(f) if isinstance(n, (ast.ListComp, ast.GeneratorExp)) and isinstance(n.elt, ast.Tuple) and len(n.elt.elts) == 2]
+    pairs = [n for n in ast.walk(f) if isinstance(n, (ast.ListComp, ast.GeneratorExp)) and _as_pair(n.elt) is not None]
     pair_ok = False
     for pc in pairs:
         v = pc.generators[0].target
         if not isinstance(v, ast.Name) or len(pc.generators) != 1:
             continue
-        texts = [norm(ast.unparse(e)) for e in pc.elt.elts]
+        texts = [norm(ast.unparse(e)) for e in _as_pair(pc.elt)]
         plain = ["os.path.join(args.src, %s)" % v.id, "os.path.join(args.dest, %s)" % v.id]
         if texts == plain or texts == ["os.path.normpath(%s)" % t_ for t_ in plain]:
             pair_ok = True
@@ -785,7 +812,8 @@ def r4_channel_pairs(repo=None):
                 plain = ["os.path.join(args.src, %s)" % lp_.target.id, "os.path.join(args.dest, %s)" % lp_.target.id]
                 if texts == plain or texts == ["os.path.normpath(%s)" % t_ for t_ in plain]:
                     pair_ok = True
-    fallback = [n for n in ast.walk(f) if isinstance(n, ast.Assign) and norm(ast.unparse(n.value)) == "[(args.src, args.dest)]"]
+    fallback = [n for n in ast.walk(f) if isinstance(n, ast.Assign) and (norm(ast.unparse(n.value)) == "[(args.src, args.dest)]" or (
+        isinstance(n.value, ast.BoolOp) and isinstance(n.value.op, ast.Or) and norm(ast.unparse(n.value.values[-1])) == "[(args.src, args.dest)]"))]
     if pruned_below:
         x, below, has_rec = pruned_below[0]
         r.violation(m.rel, q, norm(ast.unparse(x))[:100], "a requested channel that lies below another requested channel is dropped from "
@@ -803,7 +831,8 @@ def r4_channel_pairs(repo=None):
         r.ok("%s:%s %s" % (m.rel, f.lineno, q), "the channel values are only split on commas and stripped; one (src/ch, dest/ch) pair "
              "per channel, or (src, dest) when no channel was given")
         for x, why in allowed:
-            r.ok("%s:%s %s `if %s: continue`" % (m.rel, x.lineno, q, norm(ast.unparse(x.test))[:70]), why)
+            r.ok("%s:%s %s `%s`" % (m.rel, x.lineno, q, ("if %s: continue" % norm(ast.unparse(x.test))[:70]) if hasattr(x, "test")
+                                     else norm(ast.unparse(x))[:70]), why)
         dd = files_deduped(m)
         if all(dd.values()):
             r.ok("%s %s" % (m.rel, "/".join(sorted(dd))), "overlapping channel entries are resolved per file: a destination path that was "
